@@ -68,3 +68,24 @@ def explore(make, depth, rtol=1e-10, atol=1e-12, inplace=True):
             if not ok_hist:
                 continue
     return None, n
+
+
+def dtype_consistency(make_for_dtype, index_sets=(None,), rtol=1e-4, atol=1e-4):
+    """make_for_dtype(dtype) -> make (as for explore).  Evaluates the world with every input in float64 and in float32 at each index set:
+    returns (first discrepancy | None, points compared, notes).  A float32 evaluation that raises is a loud failure: accepted, noted."""
+    n, notes = 0, []
+    mk64, mk32 = make_for_dtype(torch.float64), make_for_dtype(torch.float32)
+    npar = len(mk64(None)[1])
+    for idx in index_sets:
+        i = None if idx is None else tuple(idx[:npar])
+        v64 = mk64(i)[0]()
+        try:
+            v32 = mk32(i)[0]()
+        except Exception as e:
+            notes.append("float32 inputs raise %s" % type(e).__name__)
+            continue
+        n += 1
+        if not isinstance(v32, torch.Tensor) or not v32.dtype.is_floating_point or v32.shape != v64.shape or \
+                not torch.allclose(v32.to(torch.float64), v64.to(torch.float64), rtol=rtol, atol=atol, equal_nan=False):
+            return (i, v32.tolist() if isinstance(v32, torch.Tensor) else repr(v32), str(getattr(v32, "dtype", None)), v64.tolist()), n, notes
+    return None, n, notes
